@@ -1,5 +1,6 @@
 mod alloc;
 mod backend;
+mod catalog;
 mod contract;
 mod crash;
 mod fault;
@@ -54,6 +55,7 @@ fn main() {
         "crash" => crash::run(&args),
         "fault" => fault::run(&args),
         "contract" => contract::run(&args),
+        "catalog" => catalog::run(&args),
         other => {
             eprintln!("unknown command {other}");
             std::process::exit(2);
